@@ -3,6 +3,7 @@
 package main
 
 import (
+	"github.com/NethermindEth/juno/consensus/types"
 	"verif/harness/lib"
 )
 
@@ -26,6 +27,10 @@ func genFuzz(r *lib.RNG, thorough bool) (*Scenario, *World) {
 	}
 	cfg := Cfg{Powers: vs.powers, Total: total, Rot: lib.Pick(r, []int{0, 0, 1, 2}), VMod: 4, VRem: 3,
 		PMul: lib.Pick(r, []int{1, 1, 0, 3}), Tbl: vs.tbl}
+	if r.Chance(1, 4) {
+		cfg.AltPowers = lib.Pick(r, valSets).powers
+		cfg.AltTotal = sumU(cfg.AltPowers) + uint64(r.Intn(2))
+	}
 	if r.Chance(1, 10) {
 		cfg.VMod = 0
 	}
@@ -84,6 +89,19 @@ func genFuzz(r *lib.RNG, thorough bool) (*Scenario, *World) {
 			}
 			if in.Nil {
 				in.Value = 0
+			}
+			if in.Kind == "prop" && r.Chance(1, 10) {
+				// ProcessSync: the proposal plus a few precommits
+				in.Kind = "sync"
+				for k := r.Intn(5); k > 0; k-- {
+					x := In{Kind: "pc", H: lib.Pick(r, []uint64{h, h, h, h + 1}), R: lib.Pick(r, []int{rd, rd, 0}), Sender: r.Intn(n + 1), Value: lib.Pick(r, []uint64{val, val, 8})}
+					if r.Chance(1, 8) {
+						x.Nil, x.Value = true, 0
+					}
+					in.Votes = append(in.Votes, x)
+				}
+			} else if r.Chance(1, 8) {
+				in.Wal = true
 			}
 		}
 		acts := w.Do(0, in)
@@ -145,5 +163,23 @@ func runLead(res *lib.Result, drv *lib.Driver) {
 		res.Note("lead (not a violation: inadmissible environment): ProcessTimeout before ProcessStart makes the real machine prevote 8 and nil in (0,0); see notes/C12.md")
 	} else {
 		res.Hit("lead/timeout-before-start:not-reproduced")
+	}
+}
+
+// runNilValueLead: the StateMachine API accepts a proposal whose Value pointer is nil
+// (AddProposal stores it); findProposal then dereferences it. The p2p layer and the WAL codec never
+// build such a proposal, so this is recorded as a robustness lead, not as a violation.
+func runNilValueLead(res *lib.Result) {
+	cfg := &Cfg{Powers: []uint64{1, 1, 1, 1}, Total: 4, VMod: 4, VRem: 3, PMul: 1, Tbl: []int{0, 1, 2, 3}}
+	sm := newSM(cfg, NodeSpec{Node: 1, Height: 0, VBase: 800, VStep: 4})
+	sm.ProcessStart(0)
+	_, panicked, _ := lib.Try(func() error {
+		sm.ProcessProposal(&types.Proposal[Val, Hsh, Adr]{MessageHeader: types.MessageHeader[Adr]{Height: 0, Round: 0, Sender: addr(0)}, ValidRound: -1})
+		return nil
+	})
+	if panicked {
+		res.Hit("lead/proposal-with-nil-Value:state-machine-panics(nil dereference in findProposal)")
+	} else {
+		res.Hit("lead/proposal-with-nil-Value:handled")
 	}
 }
